@@ -15,7 +15,7 @@ MAPSET_GAMES = ("sm", "o2j")
 TEXTS = ["Caravan", "夜に駆ける", "Ünïcode", "a b c", "x_y-z", "", "Re:Title", "2nd", "A, B & C", "élan vital"]
 # osu / Quaver metadata only (StepMania ends a value at "//" or ";", BMS is Shift-JIS): values with a comment marker inside,
 # and the line-break characters of Unicode that are not line breaks of these formats
-OSU_QUA_TEXTS = TEXTS + ["http://example.com/ost", "7K // Another", "NEL\x85here", "Line\u2028Sep", "tab\there"]
+OSU_QUA_TEXTS = TEXTS + ["http://example.com/ost", "7K // Another", "NEL\x85here", "Line\u2028Sep", "tab\there", "Insane [7K]", "[Extended]"]
 ASCII_TEXTS = ["Caravan", "a b c", "x_y-z", "", "2nd", "Title", "Some Artist"]
 FILES = ["hit.wav", "clap.ogg", "snare 2.wav", "kick.wav", "a-b_c.wav", "x.ogg"]
 BPMS = [60.0, 90.0, 100.0, 120.0, 128.0, 150.0, 173.25, 174.0, 180.5, 200.0, 222.22, 240.0, 300.0, 180.0018, 150.001, 150.004, 139.99969]
@@ -99,7 +99,7 @@ def gen_chart(rng, game, keys=None, n=None, style=None, n_bpm=None, empty_p=0.12
     ch = dict(keys=keys, hits=hits, holds=holds, bpms=gen_bpms(rng, t0, max(t_max, t0 + 1000), n_bpm))
     if game in ("osu", "qua"):
         ch["svs"] = [[float(rng.uniform(t0, t_max + 10)) if rng.random() < 0.7 else float(rng.choice(ch["bpms"])[0]),
-                      rng.choice([0.5, 1.0, 1.5, 2.0, 0.75, 10.0, 0.01, rng.uniform(0.1, 4), 50.0, 0.001, -1.0])]
+                      rng.choice([0.5, 1.0, 1.5, 2.0, 0.75, 10.0, 0.01, rng.uniform(0.1, 4), 50.0, 0.001, -1.0, 5e-05, 1e16])]
                      for _ in range(rng.choice([0, 0, 1, 3, 8]))]
     if game == "osu":
         ch["hit_x"] = [[rng.randrange(16), rng.randrange(4), rng.randrange(4), rng.randrange(3), rng.choice([0, 30, 70, 100]),
